@@ -907,6 +907,10 @@ class ExternalTensor(TensorBase, _protocols.TensorProtocol):  # pylint: disable=
         _check_path_containment() to enforce path containment.
         """
         self._check_validity()
+        if self.size == 0:
+            # Nothing is memory mapped for an empty tensor
+            self._check_path_containment()
+            return b""
         if self.raw is None:
             self._load()
         assert self.raw is not None
